@@ -93,7 +93,11 @@ TraceNext ==
      THEN /\ S' = [Empty EXCEPT !.now = e.t1] /\ bad' = {}
           /\ PrintT(ToJson(<<"TRACE", e.tr>>))
      ELSE LET S2 == Adopt(S, e)
-              vs == V(S, e, S2) \cup VGeneric(S, e, S2) \cup Inv(S2)
+              vs0 == V(S, e, S2) \cup VGeneric(S, e, S2) \cup Inv(S2)
+              \* a request that was cancelled mid-way and still answered OK must be the complete,
+              \* correct effect: whatever clause it breaks is (also) a breach of all-or-nothing
+              vs == IF "afterCancel" \in DOMAIN e /\ vs0 # {}
+                    THEN vs0 \cup {"C09:answered-ok-after-cancel-but-inconsistent"} ELSE vs0
           IN /\ S' = S2
              /\ bad' = bad \cup {Prop(c) : c \in vs}
              /\ \A c \in vs : PrintT(ToJson(<<"VIOL", e.tr, e.i, e.op, c, bad, Detail(S, e, c)>>))
